@@ -315,7 +315,12 @@ class Run:
 
             class It:
                 def __init__(s, c): s.c = c; s.i = 0
-                def __iter__(s): return s
+                def __iter__(s):
+                    if iterfail == "iter":
+                        # the iterable itself cannot be iterated: iter(iterable) raises inside Parallel.__call__
+                        R.ev(ev="PullIn", c=s.c, th=1); R.ev(ev="PullRaise", c=s.c, th=1)
+                        raise IterError(s.c)
+                    return s
                 def __next__(s):
                     R.ev(ev="PullIn", c=s.c, th=1)
                     if iterfail is not None and s.i == iterfail:
